@@ -114,7 +114,7 @@ pub fn build(tier: Tier) -> Check<'static> {
         let all = crate::props::c10::cases(tier);
         let idx: Vec<u64> = (0..all.len()).filter(|i| {
             let c = all.get(*i);
-            !c.ignore && (1..=4).contains(&c.a_kind)
+            !c.ignore && ((1..=4).contains(&c.a_kind) || c.a_kind == 7)
         }).collect();
         let idx = Arc::new(idx);
         let n = idx.len() as u64;
